@@ -27,7 +27,7 @@ inline uint64_t seq()
 #endif
 }
 
-enum : uint8_t { EV_DELIVER, EV_CLOSE, EV_RECV, EV_MODE, EV_CB, EV_ONCLOSE };
+enum : uint8_t { EV_DELIVER, EV_CLOSE, EV_RECV, EV_MODE, EV_CB, EV_ONCLOSE, EV_CANCEL };
 enum : int { T_IO = 0, T_READER = 1, T_SWITCH = 2, T_DIRECTOR = 3 };
 
 struct Ev
@@ -193,7 +193,9 @@ inline void ioClose(Hist &H, bool local) // I/O thread (peer close) — local cl
   L.ev.push_back(e);
   H.closeDone = true;
 }
-inline int doRecv(Hist &H, uint32_t len, int timeoutMs)
+// token != nullptr: the call goes through ITransport::receiveSyncCancellable; callId names the call so
+// that a cancel() logged by another thread (logCancel) can be matched to it
+inline int doRecv(Hist &H, uint32_t len, int timeoutMs, iora::network::CancellationToken *token = nullptr, int callId = -1)
 {
   ThreadLog &L = *tlsLog;
   uint8_t *buf = (uint8_t *)malloc(len ? len : 1); // exact size: ASan sees any write past it
@@ -201,8 +203,10 @@ inline int doRecv(Hist &H, uint32_t len, int timeoutMs)
   size_t n = len;
   Ev e; e.type = EV_RECV; e.thread = uint8_t(tlsThread); e.a = len; e.b = timeoutMs;
   e.t0 = vf::nowNs(); e.s0 = seq();
-  auto r = H.tr->receiveSync(H.sid, buf, n, std::chrono::milliseconds(timeoutMs));
+  auto r = token ? H.tr->receiveSyncCancellable(H.sid, buf, n, *token, std::chrono::milliseconds(timeoutMs))
+                 : H.tr->receiveSync(H.sid, buf, n, std::chrono::milliseconds(timeoutMs));
   e.s1 = seq(); e.t1 = vf::nowNs();
+  if (token) { e.d |= 8; e.encl = callId; }
   if (r.isOk())
   {
     e.c = c03::RES_OK;
@@ -217,11 +221,17 @@ inline int doRecv(Hist &H, uint32_t len, int timeoutMs)
   else
   {
     e.c = int(r.error().code);
-    for (size_t i = 0; i < len; i++) if (buf[i] != 0xEE) { e.d |= 2; break; }
+    for (size_t i = 0; i < len; i++) if (buf[i] != 0xEE) { e.d |= 16; break; } // an error result that touched the buffer
   }
   free(buf);
   L.ev.push_back(e);
   return int(e.c);
+}
+// logged by whichever thread is about to call token.cancel() for the cancellable call `callId`
+inline void logCancel(int callId)
+{
+  Ev e; e.type = EV_CANCEL; e.thread = uint8_t(tlsThread); e.a = callId; e.s0 = e.s1 = seq();
+  tlsLog->ev.push_back(e);
 }
 inline bool doMode(Hist &H, int mode)
 {
@@ -267,6 +277,7 @@ inline void collect(Hist &H, c03::History &out)
   std::map<std::pair<int, int>, int> deliverIdx, modeIdx; // (thread, log index) -> chunk idx / mode idx
   struct Ref { int t; int i; };
   std::vector<Ref> recvRefs, modeRefs, cbRefs;
+  std::map<int, uint64_t> cancelAt; // cancellable call id -> seq just before the first cancel()
   for (int t = 0; t < 4; t++)
     for (size_t i = 0; i < H.logs[t].ev.size(); i++)
     {
@@ -279,6 +290,7 @@ inline void collect(Hist &H, c03::History &out)
       }
       else if (e.type == EV_CLOSE) { if (e.b) { out.close.happened = true; out.close.s0 = e.s0; out.close.s1 = e.s1; out.close.local = e.a != 0; } }
       else if (e.type == EV_RECV) recvRefs.push_back({t, int(i)});
+      else if (e.type == EV_CANCEL) { auto &c = cancelAt[int(e.a)]; if (!c || e.s0 < c) c = e.s0; }
       else if (e.type == EV_MODE) modeRefs.push_back({t, int(i)});
       else if (e.type == EV_CB) cbRefs.push_back({t, int(i)});
     }
@@ -298,6 +310,8 @@ inline void collect(Hist &H, c03::History &out)
     auto &e = evOf(rf);
     c03::Recv r; r.s0 = e.s0; r.s1 = e.s1; r.t0 = e.t0; r.t1 = e.t1; r.bufLen = uint32_t(e.a); r.timeoutMs = int(e.b); r.code = int(e.c);
     r.lenMismatch = (e.d & 1) != 0; r.canaryBroken = (e.d & 2) != 0; r.thread = rf.t;
+    r.cancellable = (e.d & 8) != 0; r.errorWroteBuffer = (e.d & 16) != 0;
+    if (r.cancellable) { auto it = cancelAt.find(e.encl); if (it != cancelAt.end()) r.cancelSeq = it->second; }
     auto &ar = H.logs[rf.t].arena;
     r.data.assign(ar.begin() + e.payOff, ar.begin() + e.payOff + e.payLen);
     if (e.d & 4) r.data.resize(size_t(r.bufLen) + 1); // reported more than the buffer holds
@@ -339,7 +353,7 @@ inline std::string render(const Hist &H, const c03::History &h, size_t maxEvents
   if (h.close.happened) ls.push_back({h.close.s0, std::string("io:close(") + (h.close.local ? "local" : "peer") + ")"});
   for (auto &m : h.modes) ls.push_back({m.s0, std::string("app:setReadMode(") + c03::modeName(m.target) + ")=" + (m.ret ? "true" : "false") + " ..s" + std::to_string(m.s1)});
   for (auto &r : h.recvs)
-    ls.push_back({r.s0, std::string(r.thread == T_DIRECTOR && H.spec.kind == "conc" ? "late" : "app") + ":receiveSync(len=" + std::to_string(r.bufLen) + ",to=" + std::to_string(r.timeoutMs) + "ms)=" + code(r.code) +
+    ls.push_back({r.s0, std::string(r.thread == T_DIRECTOR && H.spec.kind == "conc" ? "late" : "app") + ":receiveSync" + (r.cancellable ? std::string("Cancellable") + (r.cancelSeq ? "[cancel@s" + std::to_string(r.cancelSeq) + "]" : "") : std::string()) + "(len=" + std::to_string(r.bufLen) + ",to=" + std::to_string(r.timeoutMs) + "ms)=" + code(r.code) +
                             (r.code == c03::RES_OK ? "(" + std::to_string(r.data.size()) + "B)" : "") + " ..s" + std::to_string(r.s1)});
   for (auto &cb : h.cbs) ls.push_back({cb.s0, std::string(cb.onIo ? "io" : "app") + ":onData(" + std::to_string(cb.data.size()) + "B) ..s" + std::to_string(cb.s1)});
   std::sort(ls.begin(), ls.end(), [](const Line &a, const Line &b) { return a.s0 < b.s0; });
